@@ -20,7 +20,7 @@ for pid in ids:
         "engine": ",".join(e if isinstance(e, str) else e[0] for e in s["engines"]),
         "level_claimed": {"category": s.get("level", "proof"), "text": s["level_text"], "design_ref": s.get("design_ref", "DESIGN.md §6 " + pid)},
         "level_note": s["level_note"],
-        "technique": s.get("technique", "Coq 8.16 theorems about a hand-written Gallina model + correspondence check (extracted model vs implementation on the same inputs)"),
+        "technique": s.get("technique", "Coq 8.16 theorems about a hand-written Gallina model + correspondence check (extracted model vs implementation on the same inputs) + translator tie (the Go source is re-translated on every run into a Coq-defined statement language and compared with the canonical program whose interpretation is proved equal to the model; DESIGN 12.7)"),
     })
 na = [{"property_id": pid, "reason": NOT_APPLICABLE.get(pid, "check not built yet in this session; see DESIGN.md §6 for the plan")} for pid in ids if pid not in PROPS]
 m = {
@@ -33,7 +33,7 @@ m = {
                  "kind_free_text": "python driver: coqc proof re-check + Print Assumptions audit, Go runner rebuilt from /repo's working tree, extracted OCaml model, comparison, evidence"}],
     "checks": checks,
     "not_applicable": na,
-    "notes": "See DESIGN.md. Every check re-proves its theorems with coqc and re-runs the model/implementation correspondence against code rebuilt from /repo's working tree.",
+    "notes": "See DESIGN.md (section 12 is the as-built record; 12.7 the translator ties). Every check re-proves its theorems with coqc (Print Assumptions audit), re-translates the source it is about, and re-runs the model/implementation correspondence against code rebuilt from /repo's working tree.",
 }
 json.dump(m, open(os.path.join(ROOT, "MANIFEST.json"), "w"), indent=1)
 print("wrote MANIFEST.json with %d checks, %d not claimed" % (len(checks), len(na)))
